@@ -373,6 +373,15 @@ def run_blackbox_case(st, keep_log=False):
         if abs(acf[k]) > 0.05:
             raise Violation("C15/noise-correlated", key, f"autocorrelation {acf[k]:.3f} at lag {k}: the noise terms of "
                             f"different samples are not independent draws ({case})")
+        # independent draws do not cancel: |sum z| / sqrt(N) is |N(0,1)|, below 1e-7 with probability 8e-8, and the
+        # sorted sample is not its own mirror image (antithetic pairs z, -z - shuffled or not - give 1e-16 for both)
+        zs = np.sort(z)
+        cancel = abs(float(np.sum(z))) / np.sqrt(n)
+        mirror = float(np.max(np.abs(zs + zs[::-1])))
+        stats["abs_sum_over_sqrtN"], stats["mirror_asymmetry"] = float(f"{cancel:.3g}"), float(f"{mirror:.3g}")
+        if float(np.max(std)) > 0 and (cancel < 1e-7 or mirror < 1e-7):
+            raise Violation("C15/noise-correlated", key, f"the noise terms cancel exactly (|sum z|/sqrt(N) = {cancel:.2g}, "
+                            f"mirror asymmetry of the sorted sample {mirror:.2g}): they are not independent draws ({case})")
         if lin is not None:
             emp = sp / float(np.mean((r1 - a) ** 2))
             case["empirical_snr_over_requested"] = round(emp / lin, 4)
